@@ -88,8 +88,10 @@ func SymbolicStream(k int, alpha []Tok, first int) []Tok {
 		kinds[i], vals[i] = t.Kind, t.Val
 	}
 	toks := make([]Tok, k)
+	Selectors = nil
 	for i := 0; i < k; i++ {
 		sel := verifrt.Int("t"+strconv.Itoa(i), 0, len(alpha)-1)
+		Selectors = append(Selectors, sel)
 		if i == 0 && first >= 0 {
 			verifrt.Assume(sel == first)
 		}
@@ -189,10 +191,77 @@ func InstallNamed(name string, toks []Tok) *ast.Source {
 // InsertAtEveryGap: doc is a complete, valid document; k symbolic tokens are
 // inserted at a position that is itself case-split over 0..len(doc).
 func InsertAtEveryGap(doc []Tok, k int, alpha []Tok) []Tok {
-	g := verifrt.Split(verifrt.Int("gap_of"+strconv.Itoa(len(doc)), 0, len(doc)))
+	var g int
+	if len(doc) < 64 {
+		g = verifrt.Split(verifrt.Int("gap_of"+strconv.Itoa(len(doc)), 0, len(doc)))
+	} else {
+		// a case split takes at most 64 values: two digits
+		hi := verifrt.Split(verifrt.Int("gaphi_of"+strconv.Itoa(len(doc)), 0, len(doc)/32))
+		lo := verifrt.Split(verifrt.Int("gaplo_of"+strconv.Itoa(len(doc)), 0, 31))
+		g = 32*hi + lo
+		if g > len(doc) {
+			verifrt.Assume(false)
+		}
+	}
 	out := append([]Tok(nil), doc[:g]...)
+	SymStart = g
 	out = append(out, SymbolicStream(k, alpha, -1)...)
 	return append(out, doc[g:]...)
+}
+
+// Selectors are the selectors of the symbolic tokens drawn by the last SymbolicStream,
+// SymStart the index of the first of them in the stream handed to the parser.
+var (
+	Selectors []int
+	SymStart  int
+)
+
+// Concretize case-splits the stream's symbolic tokens into the alphabet's entries (structure
+// becomes concrete per case) and gives the leaves a value of their own again: an ordinary
+// name becomes one arbitrary lower-case letter, an integer one arbitrary digit, a string /
+// block string / comment one arbitrary character of '#'..'Z' (punctuation incl. # , ( ) @ : = $ &,
+// digits, capitals; solver variables "leaf<i>").
+func Concretize(toks []Tok, alpha []Tok) []Tok {
+	out := append([]Tok(nil), toks...)
+	for j, sel := range Selectors {
+		i := SymStart + j
+		v := verifrt.SplitFeasible(sel)
+		out[i] = alpha[v]
+	}
+	for i := range out {
+		out[i] = symbolicLeaf(out[i], i)
+	}
+	return out
+}
+
+func symbolicLeaf(t Tok, i int) Tok {
+	// one variable per (position, kind of leaf): the same position holds a name on one path and a string on another
+	name := "leaf" + strconv.Itoa(i)
+	switch t.Kind {
+	case KName:
+		name += "n"
+	case KInt:
+		name += "i"
+	case KString:
+		name += "s"
+	case KBlockString:
+		name += "b"
+	case KComment:
+		name += "c"
+	}
+	switch {
+	case t.Kind == KName && (t.Val == "a" || t.Val == "b"):
+		return Tok{KName, verifrt.BytesIn(name, 1, 'a', 'z')}
+	case t.Kind == KInt:
+		return Tok{KInt, verifrt.BytesIn(name, 1, '0', '9')}
+	case t.Kind == KString && t.Val == "x":
+		return Tok{KString, verifrt.BytesIn(name, 1, '#', 'Z')}
+	case t.Kind == KBlockString && t.Val == "x":
+		return Tok{KBlockString, verifrt.BytesIn(name, 1, '#', 'Z')}
+	case t.Kind == KComment:
+		return Tok{KComment, "#" + verifrt.BytesIn(name, 1, '#', 'Z')}
+	}
+	return t
 }
 
 // Rewind lets a second parse read the same stream again.
@@ -207,4 +276,19 @@ func Significant(toks []Tok) []Tok {
 		}
 	}
 	return out
+}
+
+// StreamFromDoc: a complete document with k arbitrary tokens inserted at every position (k = 0:
+// the document as it is), installed for the parser; for harnesses that bring their own documents.
+func StreamFromDoc(doc []Tok, k int, alpha []Tok) ([]Tok, *ast.Source) {
+	total := len(doc) + k
+	verifrt.SetOpt("unwind", total+3)
+	verifrt.SetOpt("depth", 8*total+40)
+	verifrt.SetOpt("merge", 0)
+	toks := doc
+	Selectors, SymStart = nil, 0
+	if k > 0 {
+		toks = InsertAtEveryGap(doc, k, alpha)
+	}
+	return toks, Install(toks)
 }
